@@ -531,6 +531,11 @@ class Facts:
             if lit[0] != 'cmp':
                 continue
             _, op2, x, y = lit
+            # a length is never negative: len != 0  <=>  len > 0
+            if op2 == 'ne' and x[0] == 'len' and self.const_int(y) == 0:
+                op2 = 'gt'
+            elif op2 == 'ne' and y[0] == 'len' and self.const_int(x) == 0:
+                op2 = 'lt'
             if x == a and y == b and op in IMPLIES[op2]:
                 return (lit, edge)
             # x >= (y + c), c >= 0 (no wrap: the checked add would have panicked)  =>  x >= y
